@@ -164,6 +164,18 @@ Definition invite_admissible (i : inv_input) : bool :=
   | None => false
   end.
 
+Definition invite_v3_admissible (x : iv3_extra) (i : inv_input) : bool :=
+  version_known (iv_version i) &&
+  bytes_eqb (v3_proto_type x) m_room_member &&
+  match v3_proto_membership x with Some m => bytes_eqb m s_invite | None => false end &&
+  bytes_eqb (v3_proto_room x) (iv_req_room i) &&
+  match v3_sender_id x with Some _ => true | None => false end &&
+  match iv_known_room i with
+  | Some true => match iv_membership i with Some cur => negb (bytes_eqb cur s_join) | None => false end
+  | Some false => true
+  | None => false
+  end.
+
 (* ---------- perform_join ---------- *)
 Definition is_known_create (e : pj_auth_event) : bool :=
   bytes_eqb (pa_type e) m_room_create &&
@@ -171,7 +183,17 @@ Definition is_known_create (e : pj_auth_event) : bool :=
   pa_content_ok e &&
   version_known (match pa_room_version e with [] => v_1 | v => v end).
 
-Definition perform_join_admissible (i : pj_input) : bool :=
+(* [used]: the join event handed back is the remote's copy (else the one built locally).
+   Whichever is handed back is the one the federation-response checks passed for; the remote's
+   copy is only ever handed back when it is a parsable join of this room. *)
+Definition perform_join_admissible (i : pj_input) (used : bool) : bool :=
   pj_make_join_ok i && pj_send_join_ok i &&
-  pj_check_ok i &&
-  existsb is_known_create (pj_auth_events i).
+  (if used then pj_check_remote i else pj_check_own i) &&
+  existsb is_known_create (pj_auth_events i) &&
+  (negb used ||
+   match pj_remote i with
+   | Some r => pr_parse_ok r &&
+               match pr_membership r with Some m => bytes_eqb m s_join | None => false end &&
+               bytes_eqb (pr_room_id r) (pj_room_id i)
+   | None => false
+   end).
